@@ -169,14 +169,45 @@ def repetitive(rng):
     return s, t
 
 
+SWAPS = [("CONCAT_WS('-', a, b)", "CONCAT('-', a, b)"), ("TRY_CAST(a AS INT)", "CAST(a AS INT)"), ("SAFE_DIVIDE(a, b)", "a / b"),
+         ("COUNT(DISTINCT a)", "COUNT(a)"), ("a ILIKE 'x%'", "a LIKE 'x%'"), ("COALESCE(a, b)", "IFNULL(a, b)"), ("a IS DISTINCT FROM b", "a <> b"),
+         ("ARRAY_AGG(a ORDER BY b)", "ARRAY_AGG(a)"), ("SUM(a) OVER (PARTITION BY b)", "SUM(a)"), ("CAST(a AS DECIMAL(10, 2))", "CAST(a AS DECIMAL)"),
+         ("a NOT IN (1, 2)", "a IN (1, 2)"), ("LEFT(s, 1)", "RIGHT(s, 1)"), ("GREATEST(a, b)", "LEAST(a, b)")]
+HIVE_SWAPS = [("SELECT k, v FROM t SORT BY k, v", "SELECT k, v FROM t ORDER BY k, v"), ("SELECT k FROM t CLUSTER BY k", "SELECT k FROM t DISTRIBUTE BY k")]
+
+
+def class_swap(rng):
+    """pairs that differ in one node whose class is a sub / super / sibling class of the other's"""
+    a, b = rng.choice(SWAPS)
+    if rng.random() < 0.5:
+        a, b = b, a
+    tail = rng.choice(["", " WHERE c > 1", " GROUP BY c", " ORDER BY c"])
+    alias = rng.choice([" AS x", ""])
+    return f"SELECT c, {a}{alias} FROM t{tail}", f"SELECT c, {b}{alias} FROM t{tail}", None
+
+
 def run_case(ctx, i):
     import sqlglot
     from sqlglot.errors import SqlglotError
 
     rng = ctx.case_rng(i)
     tables = sqlgen.gen_schema(rng)
-    kind = rng.choice(["edited", "edited", "edited", "independent", "copy", "self", "repetitive", "repetitive", "matchings"])
+    kind = rng.choice(["edited", "edited", "edited", "independent", "copy", "self", "repetitive", "repetitive", "matchings", "class-swap", "class-swap"])
+    read = None
     try:
+        if kind == "class-swap":
+            if rng.random() < 0.15:
+                a, b = rng.choice(HIVE_SWAPS)
+                if rng.random() < 0.5:
+                    a, b = b, a
+                read = "hive"
+            else:
+                a, b, read = class_swap(rng)
+            s, t = sqlglot.parse_one(a, read=read), sqlglot.parse_one(b, read=read)
+            case = {"source": a, "target": b, "kind": kind}
+            ctx.count("kind:" + kind)
+            audit(ctx, s, t, case, None)
+            return
         if kind in ("edited", "matchings"):
             p = edited_pair(rng, tables)
             if not p:
